@@ -160,3 +160,62 @@ def validate(traces: list, timeout: int = 900):
         if isinstance(p, dict) and "verdicts" in p:
             rep = p
     return res, rep
+
+
+def harvest_repo_text_tests(paths=("tests/test_paragraph.py", "tests/test_span.py", "tests/test_link.py", "tests/test_bookmark.py", "tests/test_reference.py",
+                                  "tests/test_note.py", "tests/test_header.py", "tests/test_text.py", "tests/test_paragraph_search.py", "tests/test_toc.py",
+                                  "tests/test_use_case1.py", "tests/test_use_case2.py", "tests/test_markdown.py"), timeout=900):
+    """Run the repository's own text tests under the external tracing plugin; every outermost call that inserts
+    markup, strips markup or appends plain text on a paragraph / heading / span becomes a one-event MarkupTrace trace."""
+    import subprocess
+
+    from .common import REPO
+
+    fd, path = tempfile.mkstemp(prefix="verif_harvest_text_", suffix=".ndjson")
+    os.close(fd)
+    try:
+        env = dict(os.environ, ODFDO_VERIF="1", ODFDO_VERIF_TEXT="1", ODFDO_VERIF_TRACE=path,
+                   PYTHONPATH=str(Path(__file__).resolve().parent.parent) + os.pathsep + str(REPO / "src"))
+        have = [p for p in paths if (REPO / p).exists()]
+        r = subprocess.run(["/venv/bin/python", "-m", "pytest", "-q", "-p", "no:cacheprovider", "-p", "harness.pytest_trace_plugin", "-x", *have],
+                           cwd=REPO, env=env, capture_output=True, text=True, timeout=timeout)
+        events = []
+        for line in Path(path).read_text().splitlines():
+            try:
+                ev = json.loads(line)
+            except ValueError:
+                continue
+            if ev.get("kind") != "text" or "post" not in ev:
+                continue
+            op = {"op": "harvest_" + ev["class"]}
+            if ev["class"] == "append":
+                op["text"] = ev["text"]
+            rec = {"pre": ev["pre"], "op": op, "post": ev["post"], "test": ev["test"], "method": ev["method"]}
+            if "exc" in ev:
+                rec["exc"] = ev["exc"]
+            events.append(rec)
+        return r.returncode, events, r.stdout[-400:]
+    finally:
+        Path(path).unlink(missing_ok=True)
+
+
+def run_harvest_part(run, classes, label):
+    """Harvest + validate; verdicts of the given call classes become violations of the calling check."""
+    rc, events, tail = harvest_repo_text_tests()
+    events = [e for e in events if e["op"]["op"].split("_", 1)[1] in classes]
+    run.notes[f"harvested_{label}_calls"] = len(events)
+    run.notes["harvest_pytest_rc"] = rc
+    if not events:
+        run.notes["harvest_note"] = "no call harvested: " + tail[-200:]
+        return
+    res, rep = validate([[e] for e in events])
+    run.add_tlc(f"MarkupTrace validation of the calls harvested from the repository's tests ({label})", res)
+    if rep is None:
+        run.machinery("MarkupTrace produced no report on harvested calls:\n" + res.stdout[-2000:])
+    run.count(len(events))
+    run.validated(len(events))
+    for e in events:
+        run.klass("harvest", e["method"], "exc" if "exc" in e else "ok")
+    for v in rep["verdicts"]:
+        e = events[v["tid"] - 1]
+        run.violation(f"{v['clause']}|harvest|{e['method']}", {"kind": v["clause"], "event": e})
